@@ -329,6 +329,13 @@ def s_graph_ops(rng):
             oplist = [['sub', 0, 1], ['or', 3, 2]]
         return {'op': 'graph_ops', 'graphs': [j_graph(base), j_graph(drop), j_graph(add)], 'ops': oplist,
                 'queries': [1, rng.choice([0, 0, 1]), 1]}
+    if maybe(rng, 0.1) and len(base.triples) > 1:
+        # make the implicit top explicit (assign the top it already has), then remove the leading triple
+        first = base.triples[0]
+        g0 = Graph(list(base.triples), epidata=dict(base.epidata))        # no explicit top
+        drop = Graph([first])
+        return {'op': 'graph_ops', 'graphs': [j_graph(g0), j_graph(drop)],
+                'ops': [['settop', 0, first[0]], [rng.choice(['isub', 'sub']), 0, 1]], 'queries': [0, 0, 0]}
     gs = [base]
     for _ in range(rng.randint(1, 2)):
         k = rng.random()
